@@ -443,6 +443,8 @@ impl CommitPipeline {
 							break;
 						}
 
+						#[cfg(surrealkv_verif)]
+						crate::verif::yield_point("publish:before-horizon-cas");
 						if self
 							.visible_seq_num
 							.compare_exchange_weak(
